@@ -258,30 +258,44 @@ def property_failure(meta, hist, obs):
     return None
 
 
+# documented meaning of the composite constructors' arguments (mirror of spec_composite_args in coq/C17/Laws.v)
+COMP_SPEC = {
+    "fast_computations": lambda a: [("_fast_covar_root_decomposition", [a[0]]), ("_fast_log_prob", [a[1]]), ("_fast_solves", [a[2]])],
+    "linalg_dtypes": lambda a: [("_linalg_dtype_symeig", [a[1] if a[1] is not None else a[0]]),
+                                ("_linalg_dtype_cholesky", [a[2] if a[2] is not None else a[0]])],
+}
+
+
 def effect_failure(real, meta, k, args):
-    """entering a fresh context of class k with args makes the observers report args"""
+    """entering a fresh context of class k with args makes the observers report args
+    (composites: every part reports the argument the documentation promises it)"""
     hist = [("new", k, args), ("enter", 0)]
     obs = real.run(hist)
     if any(o[0] == "err" for o in obs):
         return "construct/enter raised"
     got = dict(obs[-1][1])
-    parts = [(k, args)] if k in meta["prim"] else None
-    if parts is None:
-        return None
-    i = meta["prim"].index(k)
-    kind = meta["kinds"][k]
-    base = real.base_obs[i]
-    exp = list(base)
-    enc = [real.encode(real.decode(a)) for a in args]
-    if kind == "KFlag":
-        exp = [enc[0], (not args[0])]
-    elif kind == "KValue":
-        exp = [enc[0]]
+    if k in meta["prim"]:
+        parts = [(k, args)]
+    elif k in COMP_SPEC and len(args) == len(meta["comp_info"][k]["params"]):
+        parts = COMP_SPEC[k](args)
     else:
-        exp = [enc[j] if args[j] is not None else base[j] for j in range(3)]
-    cur = got.get(i, base)
-    if cur != exp:
-        return "after entering %s(%s) observers report %s, expected %s" % (k, args, cur, exp)
+        return None
+    for pk, pargs in parts:
+        if pk not in meta["prim"]:
+            return None
+        i = meta["prim"].index(pk)
+        kind = meta["kinds"][pk]
+        base = real.base_obs[i]
+        enc = [real.encode(real.decode(a)) for a in pargs]
+        if kind == "KFlag":
+            exp = [enc[0], (not pargs[0])]
+        elif kind == "KValue":
+            exp = [enc[0]]
+        else:
+            exp = [enc[j] if pargs[j] is not None else base[j] for j in range(3)]
+        cur = got.get(i, base)
+        if cur != exp:
+            return "after entering %s(%s) observers of %s report %s, expected %s" % (k, args, pk, cur, exp)
     return None
 
 
@@ -384,7 +398,7 @@ def search_real(ctx, meta, hs, real, limit=3):
             found += 1
             if found >= limit:
                 break
-    for k in meta["prim"]:
+    for k in list(meta["prim"]) + list(meta["comp"]):
         for a in arg_pool(meta, k):
             f = effect_failure(real, meta, k, a)
             if f:
@@ -413,7 +427,7 @@ def run(ctx):
         if not found:
             ctx.violation({"kind": "translator-rejected-source", "error": tr_err,
                            "obligation": "coq/C17/gen/Settings.v could not be regenerated; C17_scoping is not re-proved"}, no_input=True)
-        ctx.coverage.update({"obligations": 5, "discharged": 0, "checker_cmd": "translator failed", "trusted_base": common.COQ_TRUSTED,
+        ctx.coverage.update({"obligations": 6, "discharged": 0, "checker_cmd": "translator failed", "trusted_base": common.COQ_TRUSTED,
                              "samples": [tr_err]})
         return
     real = Real(meta)
